@@ -20,6 +20,8 @@ const CLUSTER_POOL: &[char] = &[
     'a', 'e', '1', '2', 'あ', 'い', 'ア', 'ｶ', 'ﾞ', '火', '星', '\r', '\n', '\u{200d}', '👨', '👩',
     '👧', '🇯', '🇵', '🇺', '\u{3099}', '\u{0301}', '\u{fe0f}', '\u{1f3fd}', '👏', '\u{1100}',
     '\u{1161}', '\u{11a8}', ' ', '。', 'Ｚ', '９', '\u{0e33}', '\u{0903}', '\u{0600}', '\t',
+    // neighbours of CR / LF and the other line separators (must NOT be treated as line breaks)
+    '\u{b}', '\u{c}', '\u{85}', '\u{2028}', '\u{2029}', '\u{1c}', '\u{1e}', '\u{9}', '\u{e}',
 ];
 
 const TYPES: [CharacterType; 6] = [
@@ -270,6 +272,25 @@ jamo, prepend/spacing marks and the six character types: after-state equals an i
 reference rule applied to the before-state (every other boundary/tag unchanged), text/types/ \
 n_tags/scores untouched, f(f(s)) = f(s). Non-trivial = the filter changes >= 1 boundary/tag and \
 leaves >= 1 eligible-looking one untouched.";
+    rep.run_enum(
+        "scale-sentences",
+        "every filter (six type filters, line breaks, grapheme clusters, a pattern tagger keyed by \
+three token surfaces) on the deterministic scale sentences (65,535 .. 131,080 characters, a \
+70,000-character token, 70,000 one-character tokens, 255..300 tag columns)",
+        false,
+        vcommon::gen::scale_sentences(3, false).into_iter().flat_map(|r| {
+            (0u8..9).map(move |filter| {
+                let toks = oracle::ref_tokens(&r.labels);
+                let rules = toks
+                    .iter()
+                    .take(3)
+                    .map(|t| (r.chars[t.start..t.end].iter().collect::<String>(), vec![Some("R".to_string()), None, Some("R3".to_string())]))
+                    .collect();
+                FilterCase { sentence: r.clone(), filter, rules }
+            })
+        }),
+        |c: &FilterCase| test_case(c).map(|mut i| { i.nontrivial = true; i }),
+    );
     let n = rep.n(100000, 3000000);
     rep.run_prop("type-filter", rule, n, || case_strategy(0u8..6), test_case);
     rep.run_prop("linebreak-filter", rule, n, || case_strategy(Just(6u8)), test_case);
